@@ -49,6 +49,8 @@ pub struct Flavor {
     pub hard_fault_pm: u32,
     /// percentage of mutating calls that meet one transient storage error and are then simply tried again
     pub retry_fault_pct: u64,
+    /// percentage of small library-formatted volumes that are made on a device that was not blank
+    pub dirty_medium_pct: u64,
     pub retry_fault_max_k: u64,
 }
 
@@ -68,6 +70,7 @@ pub fn base_flavor(prop: &'static str) -> Flavor {
         refgen_pct: 0,
         hard_fault_pm: 0,
         retry_fault_pct: 0,
+        dirty_medium_pct: 0,
         retry_fault_max_k: 12,
     }
 }
@@ -141,6 +144,7 @@ pub fn flavor_for(prop: &str) -> Flavor {
         }
         "C10" => {
             f.prop = "C10";
+            f.dirty_medium_pct = 30;
             f.oracles = Oracles { fat_copies: true, ..Default::default() };
             f.fat_w = [4, 3, 3];
             f.refgen_pct = 50;
@@ -156,6 +160,7 @@ pub fn flavor_for(prop: &str) -> Flavor {
         }
         "C11" => {
             f.prop = "C11";
+            f.dirty_medium_pct = 30;
             f.oracles = Oracles { write_audit: true, ..Default::default() };
             f.fat_w = [4, 3, 3];
             f.refgen_pct = 30;
@@ -243,6 +248,9 @@ pub fn draw_cfg(r: &mut Rng, fl: &Flavor) -> RunCfg {
     }
     if !fl.extra_dev {
         v.extra_sectors = 0;
+    }
+    if fl.dirty_medium_pct > 0 && u64::from(v.total_sectors) * u64::from(v.bps) <= (48 << 20) && Rng::new(r.next_u64()).below(100) < fl.dirty_medium_pct {
+        v.dirty_medium = true;
     }
     if r.below(100) < u64::from(fl.ballast_pct) {
         v.ballast_keep = Some(match r.below(4) {
